@@ -413,19 +413,22 @@ pub(crate) fn bump_prepare_up(props: BumpProps) -> Option<Range<usize>> {
         }
     }
 
-    let remaining = end.wrapping_sub(start) as isize;
-
-    if unlikely(layout.size() as isize > remaining) {
-        return None;
-    }
-
-    // Layout fits, we just trim off the excess to make end aligned.
+    // We trim off the excess to make end aligned.
     //
     // Note that `end` does *not* need to be aligned to `min_align` because the `prepare` operation doesn't
     // move the bump pointer which is the thing that does need to be aligned.
     //
     // Aligning to `min_align` will happen once `use_prepared_slice_allocation` is called.
+    //
+    // This must happen before the size check: when `layout.size()` is not a multiple of `layout.align()`
+    // the trimmed range can be smaller than the layout (it can end up before `start`, then `remaining` is negative).
     let end = down_align(end, layout.align());
+
+    let remaining = end.wrapping_sub(start) as isize;
+
+    if unlikely(layout.size() as isize > remaining) {
+        return None;
+    }
 
     debug_assert_aligned!(start, layout.align());
     debug_assert_aligned!(end, layout.align());
@@ -466,6 +469,17 @@ pub(crate) fn bump_prepare_down(props: BumpProps) -> Option<Range<usize>> {
         }
     }
 
+    // We trim off the excess to make start aligned.
+    //
+    // Note that `start` doesn't need to be aligned to `min_align` because the `prepare` operation doesn't
+    // move the bump pointer which is the thing that needs to be aligned.
+    //
+    // Aligning to `min_align` will happen once `use_prepared_slice_allocation` is called.
+    //
+    // This must happen before the size check: when `layout.size()` is not a multiple of `layout.align()`
+    // the block needs more room than `layout.size()` below the aligned `end`.
+    let start = up_align_unchecked(start, layout.align());
+
     // REGULAR_CHUNK: `start` and `end` must be part of the same allocated object.
     // Allocated objects can't have a size greater than `isize::MAX`, so this doesn't overflow.
     //
@@ -475,14 +489,6 @@ pub(crate) fn bump_prepare_down(props: BumpProps) -> Option<Range<usize>> {
     if unlikely(layout.size() as isize > remaining) {
         return None;
     }
-
-    // Layout fits, we just trim off the excess to make start aligned.
-    //
-    // Note that `start` doesn't need to be aligned to `min_align` because the `prepare` operation doesn't
-    // move the bump pointer which is the thing that needs to be aligned.
-    //
-    // Aligning to `min_align` will happen once `use_prepared_slice_allocation` is called.
-    let start = up_align_unchecked(start, layout.align());
 
     debug_assert_aligned!(start, layout.align());
     debug_assert_aligned!(end, layout.align());
